@@ -5,49 +5,49 @@ Import ListNotations.
 Open Scope string_scope.
 
 (* ------------------------------------------------------------------ typing fact: no secret fragment *)
-Definition is_secretish (p : sclass) : bool :=
-  match p with SSecret _ | SUnknown _ => true | _ => false end.
+Definition is_secretish (aw : bool) (p : sclass) : bool :=
+  match p with SSecret _ | SUnknown _ => true | SWire => negb aw | _ => false end.
 
-Lemma to_frag_none_iff : forall pk p, to_frag pk p = None <-> is_secretish p = true.
-Proof. intros pk p; destruct p; simpl; split; intro H; try discriminate; reflexivity. Qed.
+Lemma to_frag_none_iff : forall aw pk p, to_frag aw pk p = None <-> is_secretish aw p = true.
+Proof. intros aw pk p; destruct p; destruct aw; simpl; split; intro H; try discriminate; reflexivity. Qed.
 
-Lemma to_frags_some_clean : forall pk ps fs,
-  to_frags pk ps = Some fs -> existsb is_secretish ps = false /\ List.length fs = List.length ps.
+Lemma to_frags_some_clean : forall aw pk ps fs,
+  to_frags aw pk ps = Some fs -> existsb (is_secretish aw) ps = false /\ List.length fs = List.length ps.
 Proof.
-  intros pk ps; induction ps as [|p r IH]; intros fs H; simpl in *.
+  intros aw pk ps; induction ps as [|p r IH]; intros fs H; simpl in *.
   - inversion H; auto.
-  - destruct (to_frag pk p) eqn:Ep; [|discriminate].
-    destruct (to_frags pk r) eqn:Er; [|discriminate].
+  - destruct (to_frag aw pk p) eqn:Ep; [|discriminate].
+    destruct (to_frags aw pk r) eqn:Er; [|discriminate].
     inversion H; subst; clear H.
     destruct (IH _ eq_refl) as [H1 H2].
-    assert (is_secretish p = false).
-    { destruct (is_secretish p) eqn:E; auto. apply to_frag_none_iff with (pk := pk) in E. congruence. }
+    assert (is_secretish aw p = false).
+    { destruct (is_secretish aw p) eqn:E; auto. apply to_frag_none_iff with (pk := pk) in E. congruence. }
     rewrite H, H1. simpl. auto.
 Qed.
 
-Lemma to_frags_secret_none : forall pk ps, existsb is_secretish ps = true -> to_frags pk ps = None.
+Lemma to_frags_secret_none : forall aw pk ps, existsb (is_secretish aw) ps = true -> to_frags aw pk ps = None.
 Proof.
-  intros pk ps H. destruct (to_frags pk ps) eqn:E; auto.
+  intros aw pk ps H. destruct (to_frags aw pk ps) eqn:E; auto.
   apply to_frags_some_clean in E. destruct E; congruence.
 Qed.
 
 (* A fragment list never mentions a secret-bearing expression: there is nothing to prove - the type
    [frag] has no such constructor.  What is left is that conversion of a site succeeds. *)
-Lemma site_ok_frags : forall pk tbl,
-  forallb (site_ok pk) tbl = true ->
-  forall s, In s tbl -> observable (s_kind s) = true -> exists fs, to_frags pk (s_parts s) = Some fs.
+Lemma site_ok_frags : forall aw pk tbl,
+  forallb (site_ok aw pk) tbl = true ->
+  forall s, In s tbl -> observable (s_kind s) = true -> exists fs, to_frags aw pk (s_parts s) = Some fs.
 Proof.
-  intros pk tbl H s Hin Hobs.
+  intros aw pk tbl H s Hin Hobs.
   rewrite forallb_forall in H. specialize (H s Hin). unfold site_ok in H.
   rewrite Hobs in H. simpl in H.
-  destruct (to_frags pk (s_parts s)); [eauto|discriminate].
+  destruct (to_frags aw pk (s_parts s)); [eauto|discriminate].
 Qed.
 
-Lemma site_ok_no_secret_part : forall pk tbl,
-  forallb (site_ok pk) tbl = true ->
-  forall s, In s tbl -> observable (s_kind s) = true -> existsb is_secretish (s_parts s) = false.
+Lemma site_ok_no_secret_part : forall aw pk tbl,
+  forallb (site_ok aw pk) tbl = true ->
+  forall s, In s tbl -> observable (s_kind s) = true -> existsb (is_secretish aw) (s_parts s) = false.
 Proof.
-  intros pk tbl H s Hin Hobs. destruct (site_ok_frags pk tbl H s Hin Hobs) as [fs Hfs].
+  intros aw pk tbl H s Hin Hobs. destruct (site_ok_frags aw pk tbl H s Hin Hobs) as [fs Hfs].
   apply to_frags_some_clean in Hfs. tauto.
 Qed.
 
@@ -120,8 +120,8 @@ Qed.
    non-secret classes (the only classes there are), each inside the language of its class. *)
 Definition secret_free (pk : list string) (tbl : list site) (t : string) : Prop :=
   exists s fs ps,
-    In s tbl /\ observable (s_kind s) = true /\ to_frags pk (s_parts s) = Some fs /\
-    existsb is_secretish (s_parts s) = false /\
+    In s tbl /\ observable (s_kind s) = true /\ to_frags true pk (s_parts s) = Some fs /\
+    existsb (is_secretish true) (s_parts s) = false /\
     Forall (piece_of fs) ps /\ forallb piece_ok ps = true /\
     t = concat_str (map piece_text ps).
 
@@ -136,7 +136,7 @@ Proof.
   apply andb_true_iff in H. destruct H as [Hobs H].
   apply Nat.ltb_lt in Hlt.
   unfold event_text.
-  destruct (to_frags pk (s_parts (nth (ev_site e) tbl dummy_site))) as [fs|] eqn:Efs; [|discriminate].
+  destruct (to_frags true pk (s_parts (nth (ev_site e) tbl dummy_site))) as [fs|] eqn:Efs; [|discriminate].
   destruct (args_ok_render _ _ H) as [t Ht]. exists t. split; [exact Ht|].
   destruct (render_pieces _ _ _ Ht) as [ps [Hps Hcat]].
   exists (nth (ev_site e) tbl dummy_site), fs, ps.
@@ -161,16 +161,16 @@ Qed.
 
 (* With the table obligation, well-formedness of an emission is only about its arguments. *)
 Theorem table_safe_event_wf : forall pk tbl,
-  forallb (site_ok pk) tbl = true ->
+  forallb (site_ok true pk) tbl = true ->
   forall e, (ev_site e < List.length tbl)%nat ->
     observable (s_kind (nth (ev_site e) tbl dummy_site)) = true ->
-    (forall fs, to_frags pk (s_parts (nth (ev_site e) tbl dummy_site)) = Some fs -> args_ok fs (ev_args e) = true) ->
+    (forall fs, to_frags true pk (s_parts (nth (ev_site e) tbl dummy_site)) = Some fs -> args_ok fs (ev_args e) = true) ->
     wf_event pk tbl e = true.
 Proof.
   intros pk tbl Htbl e Hlt Hobs Hargs. unfold wf_event.
   apply Nat.ltb_lt in Hlt. rewrite Hlt. simpl. rewrite Hobs. simpl.
   apply Nat.ltb_lt in Hlt.
-  destruct (site_ok_frags pk tbl Htbl _ (nth_In_dummy tbl _ Hlt) Hobs) as [fs Hfs].
+  destruct (site_ok_frags true pk tbl Htbl _ (nth_In_dummy tbl _ Hlt) Hobs) as [fs Hfs].
   rewrite Hfs. apply Hargs. exact Hfs.
 Qed.
 
@@ -210,20 +210,35 @@ Qed.
 
 (* ------------------------------------------------------------------ the remainder *)
 Definition remainder_of (pk : list string) (tbl : list site) : list (string * string) :=
-  map (fun s => (s_file s, s_func s)) (filter (fun s => negb (site_ok_strict pk s)) tbl).
+  map (fun s => (s_file s, s_func s)) (filter (fun s => negb (site_ok_strict true pk s)) tbl).
 
-Lemma strict_implies_ok : forall pk s, site_ok_strict pk s = true -> site_ok pk s = true.
+Definition wire_sites_of (tbl : list site) : list (string * string) :=
+  map (fun s => (s_file s, s_func s)) (filter (fun s => observable (s_kind s) && has_wire s) tbl).
+
+Lemma strict_implies_ok : forall aw pk s, site_ok_strict aw pk s = true -> site_ok aw pk s = true.
 Proof.
-  intros pk s H. unfold site_ok_strict, site_ok in *.
+  intros aw pk s H. unfold site_ok_strict, site_ok in *.
   destruct (negb (observable (s_kind s))); simpl in *; auto.
-  destruct (to_frags pk (s_parts s)); auto.
+  destruct (to_frags aw pk (s_parts s)); auto.
 Qed.
+
+(* without the wire echo the two claims coincide *)
+Lemma to_frags_no_wire : forall pk ps,
+  existsb (fun p => match p with SWire => true | _ => false end) ps = false -> to_frags false pk ps = to_frags true pk ps.
+Proof.
+  intros pk ps; induction ps as [|p r IH]; intro H; simpl in *; auto.
+  apply orb_false_iff in H. destruct H as [Hp Hr]. rewrite (IH Hr).
+  destruct p; simpl in *; try reflexivity. discriminate.
+Qed.
+
+Theorem no_wire_full_strength : forall pk s, has_wire s = false -> site_ok false pk s = site_ok true pk s.
+Proof. intros pk s H. unfold site_ok. rewrite (to_frags_no_wire pk _ H). reflexivity. Qed.
 
 (* Outside the remainder, every fragment of an observable site is of a modelled class. *)
 Theorem outside_remainder_strict : forall pk tbl s,
-  In s tbl -> ~ In (s_file s, s_func s) (remainder_of pk tbl) -> site_ok_strict pk s = true.
+  In s tbl -> ~ In (s_file s, s_func s) (remainder_of pk tbl) -> site_ok_strict true pk s = true.
 Proof.
-  intros pk tbl s Hin Hnot. destruct (site_ok_strict pk s) eqn:E; auto.
+  intros pk tbl s Hin Hnot. destruct (site_ok_strict true pk s) eqn:E; auto.
   exfalso. apply Hnot. unfold remainder_of.
   apply in_map_iff. exists s. split; auto. apply filter_In. split; auto. rewrite E. reflexivity.
 Qed.
@@ -243,12 +258,17 @@ Definition demo_sites : list site := [
 Definition demo_bad : site :=
   mkSite "engine.py" 1 1 "f" (KLog LInfo) "self._logger" [SLit "key: "; SSecret "key_bytes"].
 
-Example demo_table_ok : forallb (site_ok demo_pk) demo_sites = true.
+Definition demo_wire : site :=
+  mkSite "primitives.py" 56 61 "Base.read_tag" (KRaise true) "exceptions.ReadValueError" [STypeName; SLit "tag"; SWire; SWire].
+Example demo_wire_partial : site_ok true demo_pk demo_wire = true /\ site_ok false demo_pk demo_wire = false.
+Proof. vm_compute. split; reflexivity. Qed.
+
+Example demo_table_ok : forallb (site_ok false demo_pk) demo_sites = true.
 Proof. vm_compute. reflexivity. Qed.
-Example demo_bad_rejected : site_ok demo_pk demo_bad = false.
+Example demo_bad_rejected : site_ok true demo_pk demo_bad = false.
 Proof. vm_compute. reflexivity. Qed.
 Example demo_promoted_debug_rejected :
-  site_ok demo_pk (mkSite "session.py" 356 358 "KmipSession._receive_bytes" (KLog LInfo) "self._logger"
+  site_ok true demo_pk (mkSite "session.py" 356 358 "KmipSession._receive_bytes" (KLog LInfo) "self._logger"
                           [SLit "Request encoding: "; SSecret "binascii.hexlify(message)"]) = false.
 Proof. vm_compute. reflexivity. Qed.
 Example demo_remainder : remainder_of demo_pk demo_sites = [("engine.py", "KmipEngine._process_batch")].
